@@ -5,3 +5,21 @@ CHECKS["C01"] = {
  "text": "Random sharing topologies x random edit histories (numeric, link, list assignment, every list mutator incl. no-ops, grouped updates, undo) are executed on the real library; after every accepted edit every calculated slot is compared with a system freshly built from the harness' own record of the inputs, undo is compared with the snapshot taken before, and previous_/initial_ totals with totals the monitor read itself. Held on the histories explored, not a proof.",
  "note": TB + "the from-scratch computation is the reference (its correctness is C02/C03/C04/C12/C18); comparisons at a floating-point ceil boundary are skipped and counted",
 }
+CHECKS["C02"] = {
+ "level": "exploration",
+ "technique": "runtime monitoring: invariant evaluated at quiescent points of random edit histories (monitor's own link walk and float sums)",
+ "text": "At every quiescent point of generated sharing-heavy models and edit histories (after the build, after every accepted and every refused edit) the monitor walks its own record of the links, sums the published per-object footprints with plain floats keyed by timestamp and compares with total_footprint, the five aggregate views, finiteness/sign and energy x the applicable carbon intensity. Held on the executions explored.",
+ "note": TB + "per-object energy/fabrication series are taken as published (their derivation is C03/C04/C12); total_footprint is rounded to 4 decimals by the library (5e-5 kg per hour tolerance)",
+}
+CHECKS["C03"] = {
+ "level": "exploration",
+ "technique": "runtime monitoring: reference-model comparator (exact Fraction durations, dict series) on generated and edited models",
+ "text": "Every published job / pattern / server volume series of generated models (duration x step-time x multiplicity grid around each hour boundary, random multi-pattern multi-zone models, and live models after edit histories) is compared timestamp by timestamp with an independent ~60 line reference, and the conservation totals are asserted. Where an exact duration sits on an hour boundary both neighbouring floors/ceils are accepted.",
+ "note": TB + "UTC starts are taken as published (their conversion is C11) after checking that their total equals the local total",
+}
+CHECKS["C04"] = {
+ "level": "exploration",
+ "technique": "runtime monitoring: storage-ledger reference model + sizing inequalities + classification of raised exceptions",
+ "text": "Generated models (server types, base consumptions, utilisation, storage duration / replication / base need / capacity, writers and deleters over equal, overlapping and disjoint windows, zero tails) are built; raw need, per-type instance relations, the cumulative storage ledger (by timestamp), coverage, sign and active<=provisioned are checked at every hour; each model is rebuilt with a fixed count that is just enough (must be honoured exactly) or one short (must raise); every exception is classified, and a deletion-free model rejected for negative storage or any numpy shape error is a violation.",
+ "note": TB + "per-job stored volumes are taken as published (C03); tolerance 2e-9 of the summed flows on the cancelling ledger",
+}
